@@ -941,11 +941,10 @@ func nonEmptyRangeExits(f *Func, field string) map[Edge]bool {
 		if _, isF := fieldSel(info, rs.X, pkgCtlog, "pool", field); !isF {
 			continue
 		}
-		atHead := func(p Point, _ ast.Node) bool { return p.B == b }
-		if pt, _ := g.ReachableFromEntry(Cut{Edges: nonEmpty}, atHead); pt != nil {
+		if g.EntersBlock(g.Entry(), Cut{Edges: nonEmpty}, b) {
 			continue // not dominated by the non-empty guard
 		}
-		if pt, _ := g.Reach(Point{b.Succs[0], 0}, Cut{}, atHead); pt != nil {
+		if g.EntersBlock(Point{b.Succs[0], 0}, Cut{}, b) {
 			continue // the body can iterate again
 		}
 		out[Edge{b, 1}] = true
